@@ -27,6 +27,27 @@ pub fn gen_admin(rng: &mut Rng, thorough: bool) -> Vec<String> {
         observe(&mut ops);
     }
     let actors = ["u1", "u2", "u3", "n1"];
+    if rng.chance(1, 3) {
+        // a contract that is migrated WHILE one of its own sub-messages is in flight: the reply for that sub-message
+        // (and everything after it) is served by the new code — visible in the trace's code tag.
+        // c1_2 (admin u2) becomes its own admin and migrates itself from inside the sub-message, or its callee does
+        // so on its behalf after being made admin.
+        let code = rng.range(1, ncodes);
+        let mode = rng.pick(&["always", "success", "always", "error"]);
+        ctx.sub_id += 1;
+        if rng.chance(1, 2) {
+            ops.push("exec u2 (upd c1_2 c1_2)".into());
+            ops.push(format!("exec u3 (exec c1_2 ((w 6e09 01) (sub {} {} ((attr r 1) (rd 6e09)) (mig c1_2 {} ((attr m 1)))) (rd 6b)) -)", ctx.sub_id, mode, code));
+        } else {
+            ops.push("exec u2 (upd c1_2 c2_1)".into());
+            ops.push(format!(
+                "exec u3 (exec c1_2 ((sub {} {} ((attr r 1) (rd 6b)) (exec c2_1 ((msg (mig c1_2 {} ((attr m 2))))) -))) -)",
+                ctx.sub_id, mode, code
+            ));
+        }
+        observe(&mut ops);
+        ops.push("q-info c1_2".into());
+    }
     let n = if thorough { rng.range(6, 16) } else { rng.range(4, 10) };
     for _ in 0..n {
         let c = rng.pick(&["c1_0", "c2_1", "c1_2", "c1_2", "c1_0", "n1"]).to_string();
